@@ -22,7 +22,7 @@ Verdict(e, menu) ==
            LET ta == menu[e.a]  tb == menu[e.b]  td == menu[e.d]
                ra == J(e.va)  rb == J(e.vb)
                all == [r \in 1..NR |-> J(e.all[r])]
-               cls == <<"StStep", e.op, OverflowOf(td), RoundingOf(td),
+               cls == <<"StStep", e.op, e.form, OverflowOf(td), RoundingOf(td),
                         IF Signalled(e.op, ta, ra, tb, rb, td) THEN "overflow" ELSE "in_range",
                         IF DivOperandNarrowed(e.op, ta, ra, tb, rb) THEN "div_operand_narrowed"
                         ELSE IF DivBiasOverflows(e.op, ta, ra, tb, rb) THEN "div_bias_overflows"
@@ -38,18 +38,71 @@ Verdict(e, menu) ==
                       ELSE IF Signalled(e.op, ta, ra, tb, rb, td) THEN (IF e.out = "ok" THEN "missed_overflow" ELSE "wrong_reaction")
                       ELSE IF e.out # "ok" THEN "false_overflow" ELSE "silently_wrong"),
                nt |-> TRUE, cls |-> cls]
+      [] e.e = "StCmp" ->
+           LET ta == menu[e.a]  tb == menu[e.b]  ra == J(e.va)  rb == J(e.vb)
+               all == [r \in 1..NR |-> J(e.all[r])]
+               cls == <<"StCmp", IF TExp(ta) = TExp(tb) THEN "same_exponent" ELSE "mixed_exponent">>
+           IN [d |-> (IF ra # regs[e.a] \/ rb # regs[e.b] THEN "state_mismatch"
+                      ELSE IF MUbOut(e.out) THEN "ub" ELSE IF e.out # "ok" THEN "unexpected_signal"
+                      ELSE IF all # regs THEN "other_register_changed"
+                      ELSE IF e.mask = CmpMaskOf(CmpValue(ta, ra, tb, rb)) THEN "ok" ELSE "wrong_order"),
+               nt |-> TRUE, cls |-> cls]
+      [] e.e = "StToFlt" ->
+           LET ta == menu[e.a]  ra == J(e.va)  f == e.res
+               all == [r \in 1..NR |-> J(e.all[r])]
+               cls == <<"StToFlt", IF BitLen(ra) > 53 THEN "inexact" ELSE "exact">>
+           IN [d |-> (IF ra # regs[e.a] THEN "state_mismatch"
+                      ELSE IF MUbOut(e.out) THEN "ub" ELSE IF e.out # "ok" THEN "unexpected_signal"
+                      ELSE IF all # regs THEN "other_register_changed"
+                      ELSE IF f.c = "fin" /\ (IF IsZero(ra) THEN IsZero(FMag(f))
+                                               ELSE (f.n = 1) = ra.n
+                                                    /\ LET nd == NormDyadic(FMag(f), f.e) IN IsFaithful(<<nd[1], nd[2] - TExp(ta)>>, Abs(ra), 0, 53))
+                           THEN "ok" ELSE "wrong_value"),
+               nt |-> TRUE, cls |-> cls]
+      [] e.e = "StFromInt" ->
+           LET td == menu[e.d]  kv == J(e.v)
+               all == [r \in 1..NR |-> J(e.all[r])]
+               c == ConvertTo(<<kv, 0>>, td)
+               cls == <<"StFromInt", OverflowOf(td), RoundingOf(td), IF c.k # "val" THEN "overflow" ELSE "in_range",
+                        IF TExp(td) > 0 THEN "coarser" ELSE "exact">>
+           IN [d |-> (IF J(e.before) # regs[e.d] THEN "state_mismatch"
+                      ELSE IF MUbOut(e.out) THEN "ub"
+                      ELSE IF e.out = "unreachable" THEN "unreachable"
+                      ELSE IF \E r \in 1..NR : r # e.d /\ all[r] # regs[r] THEN "other_register_changed"
+                      ELSE IF all[e.d] # J(e.after) THEN "bad_event"
+                      ELSE IF StoreOK(<<kv, 0>>, td, J(e.before), J(e.after), e.out) THEN "ok"
+                      ELSE IF c.k # "val" THEN (IF e.out = "ok" THEN "missed_overflow" ELSE "wrong_reaction")
+                      ELSE IF e.out # "ok" THEN "false_overflow" ELSE "silently_wrong"),
+               nt |-> TRUE, cls |-> cls]
       [] OTHER -> [d |-> "unknown_event", nt |-> FALSE, cls |-> <<e.e>>]
+
+\* For a rejected line: does it equal what the unchanged library is known to do (candidate known finding)?
+\*  * construction from a built-in integer scales the integer with built-in (truncating) arithmetic before any
+\*    rounding tag is involved: a coarser destination gets the quotient truncated toward zero;
+\*  * the scaling is computed in the integer's own 64-bit type under the destination's overflow tag (the C04 finding
+\*    SCALED-CONV-SCALES-IN-SOURCE-REP): a finer destination that could hold the value reports an overflow.
+AsCodedM(e, menu) ==
+    IF e.e # "StFromInt" THEN FALSE
+    ELSE LET td == menu[e.d]  kv == J(e.v)  ex == TExp(td) IN
+         IF ex > 0 THEN
+             LET tr == TruncDiv(kv, Pow2(ex)) IN e.out = "ok" /\ J(e.after) = tr /\ Le(Abs(tr), TMaxRaw(td))
+         ELSE IF BitLen(kv) - ex > 63 THEN
+             CASE OverflowOf(td) = "throwing" -> e.out = (IF kv.n THEN "throw:negative overflow" ELSE "throw:positive overflow") /\ e.after = e.before
+               [] OverflowOf(td) = "trapping" -> e.out = (IF kv.n THEN "trap:negative overflow" ELSE "trap:positive overflow") /\ e.after = e.before
+               [] OTHER -> FALSE
+         ELSE FALSE
 
 NextRegs(e) ==
     CASE e.e = "StReset" -> ZeroRegs
       [] e.e = "StLoad" -> [regs EXCEPT ![e.r] = J(e.v)]
-      [] e.e = "StStep" -> [r \in 1..NR |-> J(e.all[r])]         \* re-synchronise from the recorded state
+      [] e.e \in {"StStep", "StFromInt", "StCmp", "StToFlt"} -> [r \in 1..NR |-> J(e.all[r])]      \* re-synchronise from the recorded state
       [] OTHER -> regs
 
 Init == l = 1 /\ regs = ZeroRegs
 Step == /\ l <= Len(Tr)
         /\ \E e \in {Tr[l]} : \E v \in {Verdict(e, Insts[e.i].lt)} :
-              /\ TLCSet(l, <<v.d, v.nt, IF v.d \in {"ok", "skip"} THEN "-" ELSE "novel", IF v.d \in {"ok", "skip"} THEN <<>> ELSE v.cls>>)
+              /\ TLCSet(l, <<v.d, v.nt, IF v.d \in {"ok", "skip"} THEN "-" ELSE IF AsCodedM(e, Insts[e.i].lt) THEN "as_coded" ELSE "novel",
+                             IF v.d \in {"ok", "skip"} THEN <<>> ELSE v.cls>>)
               /\ regs' = NextRegs(e)
         /\ l' = l + 1
 Spec == Init /\ [][Step]_<<l, regs>>
